@@ -105,7 +105,12 @@ void writerRefusals(Ctx& ctx)
 		expectThrow("width " + std::to_string(w) + " scan line " + std::to_string(a.imageMetas[0].scanLineByteWidth), a, "accepted-scan-line-not-rounded-width");
 	}
 	for (uint32_t w : { 0xFFFFFFFDu, 0xFFFFFFFEu, 0xFFFFFFFFu }) { ArtFile a = good; a.imageMetas[0].width = w; a.imageMetas[0].scanLineByteWidth = 0; expectThrow("width " + std::to_string(w) + " scan line 0 (rounded width does not fit 32 bits)", a, "accepted-scan-line-not-rounded-width"); }
-	for (int listLen : { 0, 2, 3 }) { ArtFile a = good; a.animations[0].frames[0].layers.resize(listLen); expectThrow("frame count 1 with " + std::to_string(listLen) + " layers", a, "accepted-layer-list-count-mismatch"); }
+	for (int listLen : { 0, 2, 3, 129, 257, 385, 1 + 128 * 16 }) { ArtFile a = good; a.animations[0].frames[0].layers.resize(listLen); expectThrow("frame count 1 with " + std::to_string(listLen) + " layers", a, "accepted-layer-list-count-mismatch"); }
+	// 7-bit count field: list lengths congruent to the count modulo 128 are mismatches too
+	for (int count : { 0, 2, 127 }) for (int k : { 1, 2, 3 }) {
+		ArtFile a = good; a.animations[0].frames[0].layerMetadata.count = uint8_t(count); a.animations[0].frames[0].layers.resize(std::size_t(count + 128 * k));
+		expectThrow("frame count " + std::to_string(count) + " with " + std::to_string(count + 128 * k) + " layers (equal modulo 128)", a, "accepted-layer-list-count-mismatch");
+	}
 	ctx.state(); ctx.trace();
 }
 
@@ -114,7 +119,9 @@ void corruptions(Ctx& ctx, int seedIdx)
 {
 	std::vector<int> cfg(prtc::kDims, 0);
 	if (seedIdx == 1) { cfg[0] = 2; cfg[1] = 2; cfg[4] = 2; cfg[5] = 2; cfg[6] = 3; cfg[7] = 2; cfg[9] = 2; }
+	if (seedIdx == 2) cfg[4] = 1;                       // no animations: the header totals are the last bytes of the file
 	ref::RPrt r = prtc::makePrt(cfg);
+	if (seedIdx == 3) r = ref::RPrt();                  // nothing at all
 	std::vector<ref::Field> f;
 	auto bytes = ref::encodePrt(r, &f);
 	std::vector<mc::FField> ff; for (auto& x : f) ff.push_back({ x.offset, x.width, x.name });
@@ -123,15 +130,25 @@ void corruptions(Ctx& ctx, int seedIdx)
 	for (std::size_t k = 0; k < sp.size(); ++k) {
 		mc::Mutant m = sp.get(k);
 		ctx.sub(m.desc);
-		ArtFile a;
-		auto o = mc::guarded([&] { a = prtc::readArt(m.bytes); });
+		ArtFile a; uint64_t consumed = 0;
+		auto o = mc::guarded([&] { a = prtc::readArtConsumed(m.bytes, consumed); });
 		ctx.transition();
 		if (o.cls == 'X') { ctx.violation("C10/corruption/non-std-exception", m.desc, ""); continue; }
 		if (o.cls != 'R') { ctx.count("corruption/rejected"); continue; }
 		ctx.count("corruption/accepted");
 		if (sp.isPrefix(k)) { ctx.violation("C10/corruption/proper-prefix-accepted", m.desc, ""); continue; }
 		std::string rl = prtc::rules(a);
-		if (!rl.empty()) ctx.violation("C10/corruption/accepted-result-violates-rule", m.desc, rl);
+		if (!rl.empty()) { ctx.violation("C10/corruption/accepted-result-violates-rule", m.desc, rl); continue; }
+		// header totals equal the contents / writing reproduces the input: the object does not keep the header totals, so an
+		// accepted byte string whose palette section headers are untouched (canonical) must be reproduced exactly by Write
+		// (the bytes the reader consumed; a corrupted count can leave unread bytes behind, which the reader does not judge)
+		if (m.desc.find(".overallLength") != std::string::npos || m.desc.find(".headLength") != std::string::npos || m.desc.find(".tagCount") != std::string::npos || m.desc.find(".dataLength") != std::string::npos) continue;
+		std::vector<uint8_t> back;
+		auto w = mc::guarded([&] { back = prtc::writeArt(a); });
+		if (w.cls != 'R') { ctx.violation("C10/corruption/accepted-result-cannot-be-written", m.desc, w.what); continue; }
+		ctx.count("corruption/accepted-and-reproduced");
+		if (consumed < m.bytes.size()) ctx.count("corruption/accepted-with-unread-tail");
+		if (back.size() != consumed || std::memcmp(back.data(), m.bytes.data(), std::size_t(consumed)) != 0) ctx.violation("C10/corruption/accepted-input-not-reproduced", m.desc, "header totals or counts differ from the contents: wrote " + std::to_string(back.size()) + " bytes for " + std::to_string(consumed) + " bytes consumed of " + std::to_string(m.bytes.size()));
 	}
 	ctx.state(sp.size()); ctx.trace();
 }
@@ -157,7 +174,7 @@ int main(int argc, char** argv)
 	mc::CheckDef def;
 	def.id = "C10";
 	def.init = enumerate;
-	def.ncases = [](Ctx&) { return nChunks() + 3; };
+	def.ncases = [](Ctx&) { return nChunks() + 5; };
 	def.run = runCase;
 	def.caseTimeoutS = 300;
 	return mc::Main(argc, argv, def);
